@@ -37,7 +37,14 @@ type Prop struct {
 
 var registry = map[string]*Prop{}
 
-func Register(p *Prop) { registry[p.ID] = p }
+func Register(p *Prop) {
+	switch p.Level {
+	case "exploration", "fault_enumeration", "model_checking", "proof", "translation_validation", "other":
+	default:
+		panic("fw.Register " + p.ID + ": level must be one of the evidence schema's levels, got " + p.Level)
+	}
+	registry[p.ID] = p
+}
 
 func Lookup(id string) *Prop { return registry[id] }
 
@@ -94,6 +101,7 @@ type Ctx struct {
 	lastFlush time.Time
 	maxViol   int
 	violCount map[string]int
+	hangs     int
 }
 
 func NewCtx(prop, tier string, seed uint64, batch, nbatch int, only, scratch, out, journal string) (*Ctx, error) {
@@ -151,10 +159,22 @@ func (c *Ctx) Cases(stream string, n int, f func(i int, r *Rand)) {
 		} else if i%c.NBatch != c.Batch {
 			continue
 		}
+		// Hang budget: every hang costs a full watchdog period and leaves blocked goroutines
+		// behind; after a few of them the rest of this child's share is skipped (and counted).
+		if c.hangCount() >= 3 && c.Only == "" {
+			c.Count("cases_skipped_after_hangs", 1)
+			continue
+		}
 		c.Begin(id)
 		f(i, c.Rand(stream, i))
 		c.End()
 	}
+}
+
+func (c *Ctx) hangCount() int {
+	c.mu.Lock()
+	defer c.mu.Unlock()
+	return c.hangs
 }
 
 // Begin opens a case.
@@ -300,6 +320,9 @@ func allStacks() string {
 // violation "deadlock:<name>" at once; otherwise the parent re-runs the case alone with a larger
 // budget and reports "hang:<name>" only if it reproduces (else inconclusive).
 func (c *Ctx) Hang(name, what, dump string) {
+	c.mu.Lock()
+	c.hangs++
+	c.mu.Unlock()
 	key := "hang:" + name
 	if strings.HasPrefix(dump, wedgeMarker) {
 		// Deadlock evidence from two identical dumps: decided here, no reproduction needed.
